@@ -433,6 +433,8 @@ class Profile:
                 # Remove characteristic handle
                 if charac.handle in self.__attr_db:
                     del self.__attr_db[charac.handle]
+                if charac.handle in self.__service_by_characteristic_handle:
+                    del self.__service_by_characteristic_handle[charac.handle]
 
                 # Remove characteristic value handle
                 if charac.value_handle in self.__attr_db:
